@@ -837,7 +837,8 @@ async fn chaos(sh: Arc<Shared>, uni: Arc<Universe>, mut notify: Option<NotifySen
 //------------ The run ---------------------------------------------------------------
 
 impl C06 {
-    async fn run_async(&self, kind: RunKind, ctx: Arc<SimCtx>, out: &mut RunOut) -> Result<Counters, Violation> {
+    async fn run_async(&self, kind: RunKind, tier: Tier, ctx: Arc<SimCtx>, out: &mut RunOut) -> Result<Counters, Violation> {
+        let deep = tier == Tier::Thorough;
         let start = Instant::now();
         // ---- swarm configuration ---------------------------------------------
         let (peer, net, uni, source, routers, ops, fault_kinds) = {
@@ -865,7 +866,7 @@ impl C06 {
             };
             let uni = Universe::gen(&mut t);
             let set = uni.random_set(&mut t);
-            let window = t.choose(5) as usize;
+            let window = t.choose(if deep { 12 } else { 5 }) as usize;
             let session = t.bits(16) as u16;
             let serial = match t.choose(4) {
                 0 => 0,
@@ -883,7 +884,7 @@ impl C06 {
                     i.decline_diff = 3;
                 }
             }
-            let n_routers = if sweep.is_some() { 1 } else { 1 + t.weighted(&[3, 2, 1]) };
+            let n_routers = if sweep.is_some() { 1 } else if deep { 1 + t.weighted(&[3, 2, 1, 1, 1]) } else { 1 + t.weighted(&[3, 2, 1]) };
             let mut routers = Vec::new();
             for id in 0..n_routers {
                 let (initial_version, init) = match sweep {
@@ -896,9 +897,9 @@ impl C06 {
                         match t.choose(4) { 0 => InitState::None, 3 => InitState::ForeignSession, _ => InitState::Genuine },
                     ),
                 };
-                routers.push(RouterCfg { id, initial_version, init, steps: 1 + t.choose(5) as u32 });
+                routers.push(RouterCfg { id, initial_version, init, steps: 1 + t.choose(if deep { 9 } else { 5 }) as u32 });
             }
-            let ops = if sweep.is_some() { (sweep.unwrap() / 54) as u32 % 3 } else { t.choose(10) as u32 };
+            let ops = if sweep.is_some() { (sweep.unwrap() / 54) as u32 % 3 } else { t.choose(if deep { 28 } else { 10 }) as u32 };
             let mut fk = [false; 6];
             if faulty {
                 for k in fk.iter_mut() {
@@ -908,7 +909,7 @@ impl C06 {
             (peer, net, Arc::new(uni), source, routers, ops, fk)
         };
         // some history before anyone connects
-        let pre = ctx.choose(4);
+        let pre = ctx.choose(if deep { 10 } else { 4 });
         for _ in 0..pre {
             let mut set = (*source.inner.lock().unwrap().current).clone();
             uni.mutate(&mut set, &mut ctx.tape.lock().unwrap());
@@ -1035,12 +1036,12 @@ impl Scenario for C06 {
         match tier { Tier::Quick => 1_000_000, Tier::Thorough => 40_000_000 }
     }
 
-    fn run(&self, kind: RunKind, tape: Tape, log: bool) -> (RunOut, Tape) {
+    fn run(&self, kind: RunKind, tier: Tier, tape: Tape, log: bool) -> (RunOut, Tape) {
         let _ = take_panics();
         let ctx = Arc::new(SimCtx::new(tape, log, 5_000_000));
         let mut out = RunOut::default();
         let rt = paused_runtime();
-        let res = rt.block_on(self.run_async(kind, ctx.clone(), &mut out));
+        let res = rt.block_on(self.run_async(kind, tier, ctx.clone(), &mut out));
         drop(rt);
         let mut counters = Counters::default();
         match res {
